@@ -30,6 +30,11 @@ pub struct Prog {
     /// exported kernel procedures (compiled as the kernel module), may be empty
     pub kernel: Vec<Proc>,
     pub body: Vec<Node>,
+    /// `use.<path>` lines of the program (e.g. "lib::m")
+    pub uses: Vec<String>,
+    /// procedures of an imported library module, named as the program refers to them
+    /// ("m::g0"); printed by `lib_source` (without the module prefix), never by `to_source`
+    pub lib_procs: Vec<Proc>,
 }
 
 pub fn op(s: &str) -> Node {
@@ -80,11 +85,14 @@ fn fmt_body(body: &[Node], out: &mut String, ind: usize) {
 
 impl Prog {
     pub fn simple(body: Vec<Node>) -> Self {
-        Prog { procs: vec![], kernel: vec![], body }
+        Prog { procs: vec![], kernel: vec![], body, uses: vec![], lib_procs: vec![] }
     }
 
     pub fn to_source(&self) -> String {
         let mut s = String::new();
+        for u in &self.uses {
+            s.push_str(&format!("use.{u}\n"));
+        }
         for p in &self.procs {
             s.push_str(&format!("proc.{}.{}\n", p.name, p.locals));
             fmt_body(&p.body, &mut s, 1);
@@ -109,8 +117,28 @@ impl Prog {
         Some(s)
     }
 
+    /// source of the imported library module: every `lib_procs` entry as an exported procedure;
+    /// references between library procedures are printed without the module prefix
+    pub fn lib_source(&self) -> Option<String> {
+        if self.lib_procs.is_empty() {
+            return None;
+        }
+        let mut s = String::new();
+        for p in &self.lib_procs {
+            let short = p.name.rsplit("::").next().unwrap();
+            s.push_str(&format!("export.{}.{}\n", short, p.locals));
+            let mut body = String::new();
+            fmt_body(&p.body, &mut body, 1);
+            // inside the module its own procedures are referred to by their bare names
+            let prefix = &p.name[..p.name.len() - short.len()];
+            s.push_str(&body.replace(&format!("exec.{prefix}"), "exec."));
+            s.push_str("end\n");
+        }
+        Some(s)
+    }
+
     pub fn find_proc(&self, name: &str) -> Option<&Proc> {
-        self.procs.iter().find(|p| p.name == name)
+        self.procs.iter().chain(self.lib_procs.iter()).find(|p| p.name == name)
     }
     pub fn find_kernel_proc(&self, name: &str) -> Option<&Proc> {
         self.kernel.iter().find(|p| p.name == name)
